@@ -21,7 +21,7 @@ ROOT = os.path.dirname(os.path.dirname(os.path.abspath(__file__)))
 COQ = os.path.join(ROOT, "coq")
 HARNESS = os.path.join(ROOT, "harness")
 WORK = os.path.join(ROOT, ".work")
-REPO = "/repo"
+REPO = os.environ.get("VERIF_REPO", "/repo")   # the gotlcp working tree under test
 
 GOENV = dict(os.environ, GOFLAGS="-mod=mod", GOPROXY="off", CGO_ENABLED=os.environ.get("CGO_ENABLED", "1"))
 GOENV.pop("GOSUMDB", None) if GOENV.get("GOSUMDB") == "off" else None
@@ -48,11 +48,41 @@ def sh(cmd, cwd=None, timeout=None, env=None, check=False):
 
 
 # ---------------------------------------------------------------- proof stage
-def coq_build():
-    """(re)build the whole development (incremental). returns (ok, log)"""
+def gen_skeleton():
+    """C13: regenerate coq/Model/Skeleton.v from the Go sources of REPO (tools/skel) before any Coq build."""
+    if not os.path.isdir(os.path.join(ROOT, "tools", "skel")):
+        return True, ""
+    rc, out = sh([os.path.join(ROOT, "bin", "genskel")], env=dict(GOENV, VERIF_REPO=REPO), timeout=600)
+    return rc == 0, out
+
+
+def coq_build(prop=None):
+    """(re)build the whole development (incremental). returns (ok, log).
+    Files that depend on the generated skeleton can stop compiling when the Go code changes; that
+    must fail the property they belong to, not every other property: if the full build fails, the
+    build counts as good for `prop` when its own Props and Corr files (and what they need) compile."""
+    gok, glog = gen_skeleton()
+    if not gok:
+        return False, "skeleton generation failed: " + glog[-2000:]
     sh([os.path.join(ROOT, "bin", "mkcoqproject")], check=True)
     rc, out = sh("timeout 1500 make -j16 2>&1", cwd=COQ)
+    if rc != 0 and prop:
+        targets = ["Props/%s.vo" % prop]
+        if os.path.exists(os.path.join(COQ, "Corr", "Run_%s.v" % prop)):
+            targets.append("Corr/Run_%s.vo" % prop)
+        rc2, out2 = sh("timeout 1500 make -j16 %s 2>&1" % " ".join(targets), cwd=COQ)
+        if rc2 == 0:
+            return True, out + "\n[full build failed; %s builds]" % " ".join(targets)
     return rc == 0, out
+
+
+def corr_builds(prop):
+    """the proof stage failed: can the correspondence runner alone still be compiled (so that
+    the observations of the harness are judged and reported with a replay file)?"""
+    if not os.path.exists(os.path.join(COQ, "Corr", "Run_%s.v" % prop)):
+        return False
+    rc, _ = sh("timeout 1500 make -j16 Corr/Run_%s.vo 2>&1" % prop, cwd=COQ)
+    return rc == 0
 
 
 FORBIDDEN = re.compile(r"\b(Admitted|admit|Axiom|Parameter|Conjecture|Hypothesis|Variable|Unset Guard Checking|"
@@ -132,17 +162,22 @@ def proof_stage(prop, allowed_axioms=()):
 
 
 # ---------------------------------------------------------------- correspondence stage
-def build_harness():
+def build_harness(spec=None):
     os.makedirs(WORK, exist_ok=True)
     shutil.copyfile(os.path.join(REPO, "go.sum"), os.path.join(HARNESS, "go.sum"))
     exe = os.path.join(WORK, "hx")
     rc, out = sh(["go", "build", "-tags", "verif", "-o", exe, "./cmd/hx"], cwd=HARNESS, env=GOENV, timeout=900)
+    if rc == 0 and spec and spec.get("race_binary"):
+        # stress half of the harness, instrumented by the Go race detector (C13)
+        rc, out2 = sh(["go", "build", "-race", "-tags", "verif", "-o", os.path.join(WORK, "hxrace"), "./cmd/hxrace"],
+                      cwd=HARNESS, env=GOENV, timeout=1800)
+        out += out2
     return rc == 0, out, exe
 
 
 def run_shard(path):
     d = os.path.dirname(path)
-    rc, out = sh("timeout 1200 coqc -Q %s V -w -notation-overridden,-deprecated-hint-without-locality,-ambiguous-paths,-abstract-large-number %s" % (COQ, os.path.basename(path)), cwd=d)
+    rc, out = sh("ulimit -s unlimited 2>/dev/null; timeout 1200 coqc -Q %s V -w -notation-overridden,-deprecated-hint-without-locality,-ambiguous-paths,-abstract-large-number %s" % (COQ, os.path.basename(path)), cwd=d)
     if rc != 0:
         return {"error": out[-2000:], "mism": [], "bad": []}
     m1 = re.search(r"R_mism\s*=\s*(.*?)\n\s*:\s*list", out, re.S)
@@ -227,7 +262,7 @@ def check(prop, spec, tier, seed, replay=None):
 
     # ---- proof stage
     gate = grep_gate()
-    ok, blog = coq_build()
+    ok, blog = coq_build(prop)
     pr = proof_stage(prop, spec.get("allowed_axioms", ())) if ok else {"theorems": [], "ok": [], "failed": ["<build>"], "axioms": {}, "log": blog[-3000:], "error": "coq build failed"}
     if gate:
         pr["failed"] = pr["failed"] + ["<grep-gate>"]
@@ -241,7 +276,7 @@ def check(prop, spec, tier, seed, replay=None):
             pr.setdefault("error", "coqchk failed")
 
     # ---- correspondence stage
-    hok, hlog, exe = build_harness()
+    hok, hlog, exe = build_harness(spec)
     outdir = os.path.join(WORK, prop + "-" + tier)
     meta, ev, cases = {}, {"mism": [], "bad": [], "errors": []}, {}
     harness_err = None
@@ -255,7 +290,7 @@ def check(prop, spec, tier, seed, replay=None):
         else:
             meta = json.load(open(os.path.join(outdir, "meta.json")))
             cases = load_cases(outdir)
-            ev = evaluate_cases(outdir) if ok else {"mism": [], "bad": [], "errors": ["coq build failed"]}
+            ev = evaluate_cases(outdir) if (ok or corr_builds(prop)) else {"mism": [], "bad": [], "errors": ["coq build failed"]}
 
     def case_payload(idxs, why):
         return {"property": prop, "seed": seed, "tier": tier, "why": why,
@@ -351,6 +386,7 @@ def check(prop, spec, tier, seed, replay=None):
         coverage["coqchk"] = thorough_extra
     evd = {
         "property_id": prop, "tier": tier, "seed": int(seed), "level": "proof",
+        "partial": spec.get("partial", False), "not_modelled": spec.get("not_modelled", []),
         "coverage": coverage,
         "assumptions": spec.get("assumptions", []),
         "wall_s": round(time.time() - t0, 2),
